@@ -311,3 +311,23 @@ def validate_translation(pattern_obj, zre, n=10):
         if pattern_obj.fullmatch(v) is not None:
             bad.append(('z3-non-member accepted by re', v))
     return bad
+
+
+def unbounded_repeats(p, path=''):
+    """(description, body subpattern) of every repetition without upper bound inside parsed pattern p"""
+    out = []
+    i = 0
+    for op, av in p:
+        here = '%s/%d' % (path, i)
+        if op in (sc.MAX_REPEAT, sc.MIN_REPEAT):
+            lo, hi, sub = av
+            if hi is sc.MAXREPEAT:
+                out.append((here, list(sub)))
+            out += unbounded_repeats(sub, here)
+        elif op is sc.SUBPATTERN:
+            out += unbounded_repeats(av[3], here)
+        elif op is sc.BRANCH:
+            for j, x in enumerate(av[1]):
+                out += unbounded_repeats(x, '%s|%d' % (here, j))
+        i += 1
+    return out
